@@ -229,6 +229,12 @@ func (e StdEng) reduce(
 		dimsReduced := 0
 		along = append([]int(nil), along...) // the axes belong to the caller: sort a copy
 		sort.Slice(along, func(i, j int) bool { return along[i] < along[j] })
+		for i, axis := range along {
+			// after the first of two equal axes is reduced the second would name the axis before it
+			if axis < 0 || (i > 0 && axis == along[i-1]) {
+				return nil, errors.Errorf("Cannot perform %s along axes %v: an axis is negative or given twice", op, along)
+			}
+		}
 
 		for _, axis := range along {
 			axis -= dimsReduced
